@@ -36,6 +36,7 @@ SOLE_DECIDER = {
     "xreg": {"C16": "init exactly once before the first message"},
     "xexec": {"C06": "the single-threaded executor's message count", "C11": "the single-threaded executor's panic report"},
     "xsched": {"C09": "the in-model re-check of a cancelled key"},
+    "lcrw": {"C14": "the second sentence of C14 under thread interleavings"},
 }
 EXTRA_STANDINS = {
     "xreg": {"props": XREG_PROPS, "short": "real registration + report text, every model hierarchy up to the bound",
@@ -56,6 +57,9 @@ EXTRA_STANDINS = {
     "xchan": {"props": {"C12", "C06"}, "short": "real text of channel.rs + channel/queue.rs, every cooperative schedule of two senders and the receiver up to the bound",
               "unit_of_count": "schedules", "scenario_word": "schedule",
               "what": "contracts/xchan.rs: channel.rs, channel/queue.rs and loom_exports.rs (whole files) compiled with no rewrite rule against executable stubs of async_event, diatomic_waker, recycle_box and crossbeam_utils; two sender tasks and the receiver task of one mailbox under every cooperative schedule on one thread, with a dropped blocked send or a dropped receiver; compared with C12 (capacity, exactly once in producer order, length, waiting tasks resumed, close) and C06 (in-flight counter). LABELLED BOUNDED: not part of obligations/discharged."},
+    "lcrw": {"props": {"C14"}, "runner": "loom", "short": "loom: the real CachedRwLock under every thread interleaving within the preemption bound",
+             "unit_of_count": "loom models", "scenario_word": "interleaving",
+             "what": "loom/cached_rw_lock.rs appended to the real util/cached_rw_lock.rs in a scratch copy and run with the crate's own loom configuration (--cfg nexosim_loom): three threads writing through / refreshing clones of one CachedRwLock, every interleaving within loom's preemption bound; a read that happens after a write returned sees it, a clone's view never goes back. LABELLED BOUNDED: not part of obligations/discharged."},
     "xpq": {"props": {"C20", "C07"}, "short": "real text of both priority queues, every operation sequence up to the bound",
             "unit_of_count": "operation sequences", "scenario_word": "operation sequence",
             "what": "contracts/xpq.rs: util/priority_queue.rs and util/indexed_priority_queue.rs, each file whole up to its test module, cut from /repo with no rewrite rule and compiled as they stand; every operation sequence up to the bound compared with a reference list. LABELLED BOUNDED: not part of obligations/discharged."},
@@ -440,7 +444,11 @@ def evaluate(prop, tier, tmpls, unit_cache, kani_cache):
         if ck not in unit_cache:
             from . import xsim as X
             log("[%s] bounded stand-in %s (%s) …" % (prop, xname, xdef["short"]))
-            unit_cache[ck] = X.run(tier, BUILD, xname)
+            if xdef.get("runner") == "loom":
+                from . import loomrun as L
+                unit_cache[ck] = L.run(tier, BUILD, xname)
+            else:
+                unit_cache[ck] = X.run(tier, BUILD, xname)
             x = unit_cache[ck]
             log("[%s]   %s: %s %s, %d failing checks, %.1fs%s" % (prop, xname, x["scenarios"], xdef["unit_of_count"], len(x["failures"]), x["wall_s"],
                                                                  " UNAVAILABLE: " + x["undecided"] if x["undecided"] else ""))
